@@ -1090,13 +1090,14 @@ class PyCdlib:
                     else:
                         # For real files, create an inode that points to the
                         # location on disk.
-                        if extent_to_use in extent_to_inode:
+                        if len_to_use > 0 and extent_to_use in extent_to_inode:
                             ino = extent_to_inode[extent_to_use]
                         else:
                             ino = inode.Inode()
                             ino.parse(extent_to_use, len_to_use, cdfp,
                                       self.logical_block_size)
-                            extent_to_inode[extent_to_use] = ino
+                            if len_to_use > 0:
+                                extent_to_inode[extent_to_use] = ino
                             self.inodes.append(ino)
 
                         ino.linked_records.append((new_record, vd == self.pvd))
@@ -2140,14 +2141,15 @@ class PyCdlib:
                         if self.eltorito_boot_catalog is not None and abs_file_data_extent == self.eltorito_boot_catalog.extent_location():
                             self.eltorito_boot_catalog.add_dirrecord(next_entry)
                         else:
-                            if abs_file_data_extent in extent_to_inode:
+                            if next_entry.get_data_length() > 0 and abs_file_data_extent in extent_to_inode:
                                 ino = extent_to_inode[abs_file_data_extent]
                             else:
                                 ino = inode.Inode()
                                 ino.parse(abs_file_data_extent,
                                           next_entry.get_data_length(),
                                           self._cdfp, self.logical_block_size)
-                                extent_to_inode[abs_file_data_extent] = ino
+                                if next_entry.get_data_length() > 0:
+                                    extent_to_inode[abs_file_data_extent] = ino
                                 self.inodes.append(ino)
 
                             ino.linked_records.append((next_entry, False))
